@@ -87,6 +87,9 @@ pub enum IncVariant {
     V1,
     V2,
     ByAmounts { max_a: u64, max_b: u64 },
+    /// liquidity = inverse image of a token amount on a boundary of the u64 result type (`model::AMOUNT_TARGETS[target]`,
+    /// exact amount in [target, target+1)) for the position's range at the current price; the op's `liquidity` is ignored
+    ForAmount { token_a: bool, target: u8, frac: u32, v2: bool },
 }
 
 #[derive(Clone, Debug, Serialize, Deserialize, Hash, PartialEq, Eq)]
@@ -518,6 +521,17 @@ impl Hist {
                         self.w.ix_increase(p, *liquidity, u64::MAX, u64::MAX, true)
                     }
                     IncVariant::ByAmounts { max_a, max_b } => self.w.ix_increase_by_amounts(p, *max_a, *max_b, MIN_SQRT_PRICE, MAX_SQRT_PRICE),
+                    IncVariant::ForAmount { token_a, target, frac, v2 } => {
+                        let info = &self.w.positions[p];
+                        let (pl, pu) = (whirlpool::math::sqrt_price_from_tick_index(info.lower), whirlpool::math::sqrt_price_from_tick_index(info.upper));
+                        let price = self.w.pool_state(self.pool).sqrt_price;
+                        let t = AMOUNT_TARGETS[*target as usize % AMOUNT_TARGETS.len()];
+                        // a one-sided position has no cost in the other token: use the token it does cost
+                        let l = liquidity_for_amount(price, pl, pu, *token_a, t, *frac).or_else(|| liquidity_for_amount(price, pl, pu, !*token_a, t, *frac));
+                        let Some(l) = l.filter(|l| *l > 0 && *l <= i128::MAX as u128) else { return res };
+                        res.liquidity_delta = l as i128;
+                        self.w.ix_increase(p, l, u64::MAX, u64::MAX, *v2)
+                    }
                 }
             }
             Op::Decrease { pos, amount, v2 } => {
@@ -841,6 +855,7 @@ pub fn op_strategy(with_rewards: bool) -> BoxedStrategy<Op> {
         2 => Just(IncVariant::V1),
         2 => Just(IncVariant::V2),
         1 => (gen::bits_u64(60), gen::bits_u64(60)).prop_map(|(max_a, max_b)| IncVariant::ByAmounts { max_a, max_b }),
+        1 => (any::<bool>(), 0u8..AMOUNT_TARGETS.len() as u8, any::<u32>(), any::<bool>()).prop_map(|(token_a, target, frac, v2)| IncVariant::ForAmount { token_a, target, frac, v2 }),
     ];
     let dec = prop_oneof![2 => Just(DecSel::All), 3 => any::<u16>().prop_map(DecSel::Frac), 1 => gen::bits_u128(100).prop_map(DecSel::Exact)];
     let base = prop_oneof![
